@@ -34,6 +34,7 @@ def _engine_for(pid: str):
         "C19": "check_generic",
         "C09": "check_platform",
         "C02": "check_marker", "C07": "check_marker", "C12": "check_marker", "C15": "check_marker",
+        "C03": "check_markersem", "C11": "check_markersem",
         "C04": "check_pep440", "C06": "check_pep440", "C17": "check_pep440",
         "C08": "check_wheel", "C16": "check_wheel", "C18": "check_wheel",
     }
